@@ -25,8 +25,11 @@ enum Op {
     Idle400,
     Idle1s,
     Idle1500,
+    /// while a search is open: the host (spelt in capitals) announces another service type; the packet
+    /// holds that type's PTR and the host's address
+    A4UpperInAnnouncement10,
 }
-const OPS: [Op; 16] = [
+const OPS: [Op; 17] = [
     Op::ResolveMixed,
     Op::ResolveLower500,
     Op::ResolveMixed1500,
@@ -43,6 +46,7 @@ const OPS: [Op; 16] = [
     Op::Idle400,
     Op::Idle1s,
     Op::Idle1500,
+    Op::A4UpperInAnnouncement10,
 ];
 
 /// One delivered address record (the reference store).
@@ -180,7 +184,7 @@ impl Scenario for Scn {
         "hostname-resolution-sequences".into()
     }
     fn rule(&self) -> String {
-        "all sequences over {resolve Foo.local./foo.local. with timeout none/500/1500/3000, stop, address records for the name in either letter case (two IPv4 addresses, IPv6, TTL 1/2/10, two interfaces), goodbye, cache-flush replacement, non-flush addition, idle 400 ms / 1 s}; after every step the client's view is compared with the reference store".into()
+        "all sequences over {resolve Foo.local./foo.local. with timeout none/500/1500/3000, stop, address records for the name in either letter case (two IPv4 addresses, IPv6, TTL 1/2/10, two interfaces), goodbye, cache-flush replacement, non-flush addition, an address arriving inside the host's announcement of another service type, idle 400 ms / 1 s / 1.5 s}; after every step the client's view is compared with the reference store".into()
     }
     fn setup(&self) -> Run {
         let mut w = World::one(lay_two_dual());
@@ -244,6 +248,16 @@ impl Scenario for Scn {
             Op::Idle400 => run.w.advance(400),
             Op::Idle1s => run.w.advance(1000),
             Op::Idle1500 => run.w.advance(1500),
+            Op::A4UpperInAnnouncement10 => {
+                // (without an open search such a packet is another type's business and may be
+                // ignored whole: then the event is a no-op)
+                if Scn::cur(run).is_some() {
+                    let ip: IpAddr = "10.0.0.25".parse().unwrap();
+                    run.store.push(Arr { t: now, owner: dotted(&upper), ip, ttl: 10, flush: true, ifi: IF0 });
+                    let recs = vec![ptr(&n("_z._udp.local"), &n("other._z._udp.local"), 120), a(&upper, [10, 0, 0, 25], 10)];
+                    run.w.deliver(0, IF0, PEER0, build(&response(recs)));
+                }
+            }
         }
         self.check_view(run, &format!("{op:?}"));
     }
